@@ -19,41 +19,41 @@ var verifSeq int
 
 func verifTick() int { verifSeq++; return verifSeq }
 
-type verifCall struct {
-	method string
-	arg    string
-	seq    int // when the call was received
-	done   int // when it was acknowledged (0 = not acknowledged)
+type VerifCall struct {
+	Method string
+	Arg    string
+	Seq    int // when the call was received
+	Done   int // when it was acknowledged (0 = not acknowledged)
 }
 
-// verifHost is a host connection stub: a jsonrpc2.Service whose every call is
+// VerifHost is a host connection stub: a jsonrpc2.Service whose every call is
 // acknowledged, refused, or left unanswered until the caller's deadline —
 // chosen symbolically per call (behaviours = how many of those are allowed).
-type verifHost struct {
-	name       string
-	addr       string
-	behaviours int
-	calls      []verifCall
-	closed     bool
+type VerifHost struct {
+	Name       string
+	Addr       string
+	Behaviours int
+	Calls      []VerifCall
+	Closed     bool
 }
 
-func (h *verifHost) RemoteAddr() string { return h.addr }
+func (h *VerifHost) RemoteAddr() string { return h.Addr }
 
-func (h *verifHost) Call(ctx context.Context, result interface{}, method string, params ...interface{}) error {
+func (h *VerifHost) Call(ctx context.Context, result interface{}, method string, params ...interface{}) error {
 	arg := ""
 	if len(params) > 0 {
 		arg, _ = params[0].(string)
 	}
-	ix := len(h.calls)
-	h.calls = append(h.calls, verifCall{method: method, arg: arg, seq: verifTick()})
+	ix := len(h.Calls)
+	h.Calls = append(h.Calls, VerifCall{Method: method, Arg: arg, Seq: verifTick()})
 	k := 0
-	if h.behaviours > 1 {
-		k = verifapi.Choose(fmt.Sprintf("%s.%s.%d", h.name, method, ix), h.behaviours)
+	if h.Behaviours > 1 {
+		k = verifapi.Choose(fmt.Sprintf("%s.%s.%d", h.Name, method, ix), h.Behaviours)
 	}
 	switch k {
 	case 0:
 		verifapi.Yield()
-		h.calls[ix].done = verifTick()
+		h.Calls[ix].Done = verifTick()
 		return nil
 	case 1:
 		return errors.New("host refused")
@@ -63,47 +63,46 @@ func (h *verifHost) Call(ctx context.Context, result interface{}, method string,
 	}
 }
 
-func (h *verifHost) count(method, arg string) int {
+func (h *VerifHost) Count(method, arg string) int {
 	n := 0
-	for _, c := range h.calls {
-		if c.method == method && c.arg == arg {
+	for _, c := range h.Calls {
+		if c.Method == method && c.Arg == arg {
 			n++
 		}
 	}
 	return n
 }
 
-func (h *verifHost) acked(method, arg string) int {
-	for _, c := range h.calls {
-		if c.method == method && c.arg == arg && c.done > 0 {
-			return c.done
+func (h *VerifHost) Acked(method, arg string) int {
+	for _, c := range h.Calls {
+		if c.Method == method && c.Arg == arg && c.Done > 0 {
+			return c.Done
 		}
 	}
 	return 0
 }
 
-// verifDeposits is the BalanceStore proxy that adds the on-chain deposit
+// VerifDeposits is the BalanceStore proxy that adds the on-chain deposit
 // (mirrors payment.contractPayment: Deposit from the contract, Credit from the store).
-type verifDeposits struct {
+type VerifDeposits struct {
 	store.Store
-	deposit map[store.Account]*big.Int
-	trial   *big.Int // deposit is zero for unlinked nodes
+	Deposit map[store.Account]*big.Int
 }
 
-func (d *verifDeposits) GetNodeBalance(id store.NodeID) (store.Balance, error) {
+func (d *VerifDeposits) GetNodeBalance(id store.NodeID) (store.Balance, error) {
 	b, err := d.Store.GetNodeBalance(id)
 	if err == nil && b.Account != "" {
-		if dep, ok := d.deposit[b.Account]; ok {
+		if dep, ok := d.Deposit[b.Account]; ok {
 			b.Deposit = *new(big.Int).Set(dep)
 		}
 	}
 	return b, err
 }
 
-func (d *verifDeposits) GetAccountBalance(a store.Account) (store.Balance, error) {
+func (d *VerifDeposits) GetAccountBalance(a store.Account) (store.Balance, error) {
 	b, err := d.Store.GetAccountBalance(a)
 	if err == nil {
-		if dep, ok := d.deposit[a]; ok {
+		if dep, ok := d.Deposit[a]; ok {
 			b.Deposit = *new(big.Int).Set(dep)
 		}
 	}
@@ -114,8 +113,8 @@ type verifMgr interface {
 	balance.Manager
 }
 
-// verifPool builds a pool over db with the production pay-per-interval manager.
-func verifPool(db store.Store, bs store.BalanceStore, price *big.Int, interval time.Duration, min *big.Int) *VipnodePool {
+// VerifNewPool builds a pool over db with the production pay-per-interval manager.
+func VerifNewPool(db store.Store, bs store.BalanceStore, price *big.Int, interval time.Duration, min *big.Int) *VipnodePool {
 	mgr := balance.PayPerInterval(bs, interval, price)
 	mgr.MinBalance = min
 	p := New(db, mgr)
@@ -124,8 +123,8 @@ func verifPool(db store.Store, bs store.BalanceStore, price *big.Int, interval t
 
 var verifNonce int64
 
-// verifFreshNonce returns a fresh, strictly increasing nonce inside the freshness window.
-func verifFreshNonce() int64 {
+// VerifFreshNonce returns a fresh, strictly increasing nonce inside the freshness window.
+func VerifFreshNonce() int64 {
 	n := verifapi.Now().UnixNano()
 	if n <= verifNonce {
 		n = verifNonce + 1
@@ -134,7 +133,7 @@ func verifFreshNonce() int64 {
 	return n
 }
 
-func verifPeerInfos(ids ...string) []ethnode.PeerInfo {
+func VerifPeerInfos(ids ...string) []ethnode.PeerInfo {
 	r := []ethnode.PeerInfo{}
 	for _, id := range ids {
 		r = append(r, ethnode.PeerInfo{ID: id})
@@ -142,25 +141,25 @@ func verifPeerInfos(ids ...string) []ethnode.PeerInfo {
 	return r
 }
 
-// verifUpdate performs a correctly signed vipnode_update.
-func verifUpdate(p *VipnodePool, ctx context.Context, nodeID string, peers ...string) (*UpdateResponse, error) {
-	req := UpdateRequest{PeerInfo: verifPeerInfos(peers...), BlockNumber: 1}
-	nonce := verifFreshNonce()
+// VerifUpdate performs a correctly signed vipnode_update.
+func VerifUpdate(p *VipnodePool, ctx context.Context, nodeID string, peers ...string) (*UpdateResponse, error) {
+	req := UpdateRequest{PeerInfo: VerifPeerInfos(peers...), BlockNumber: 1}
+	nonce := VerifFreshNonce()
 	sig := sigs.SignFor(nodeID, "vipnode_update", nonce, req)
 	return p.Update(ctx, sig, nodeID, nonce, req)
 }
 
-// verifConnect performs a correctly signed vipnode_connect on connection svc.
-func verifConnect(p *VipnodePool, svc *verifHost, nodeID string, full bool, payout string) (*ConnectResponse, error) {
+// VerifConnect performs a correctly signed vipnode_connect on connection svc.
+func VerifConnect(p *VipnodePool, svc *VerifHost, nodeID string, full bool, payout string) (*ConnectResponse, error) {
 	req := ConnectRequest{NodeInfo: ethnode.UserAgent{Kind: ethnode.Geth, IsFullNode: full}, Payout: payout}
-	nonce := verifFreshNonce()
+	nonce := VerifFreshNonce()
 	sig := sigs.SignFor(nodeID, "vipnode_connect", nonce, req)
 	ctx := jsonrpc2.VerifCtxWithService(context.Background(), svc)
 	return p.Connect(ctx, sig, nodeID, nonce, req)
 }
 
-// verifTotalCredit sums credit over all wallet accounts and trial balances through the public getters.
-func verifTotalCredit(db store.Store, nodes []store.NodeID, wallets []store.Account) *big.Int {
+// VerifTotalCredit sums credit over all wallet accounts and trial balances through the public getters.
+func VerifTotalCredit(db store.Store, nodes []store.NodeID, wallets []store.Account) *big.Int {
 	total := new(big.Int)
 	for _, w := range wallets {
 		b, _ := db.GetAccountBalance(w)
@@ -180,4 +179,12 @@ func verifTotalCredit(db store.Store, nodes []store.NodeID, wallets []store.Acco
 		}
 	}
 	return total
+}
+
+// VerifRegisterRemote registers svc as the live connection of host id (what connect does for hosts).
+func VerifRegisterRemote(p *VipnodePool, id store.NodeID, svc jsonrpc2.Service) {
+	p.mu.Lock()
+	p.remoteHosts[id] = svc
+	p.remoteNodeLookup[svc] = id
+	p.mu.Unlock()
 }
